@@ -84,7 +84,9 @@ func (r *RedundantWhitespaceRule) Check(ctx *linter.Context) ([]linter.Violation
 
 				// Skip runs of spaces that lie inside the line's leading whitespace (indentation,
 				// also after a tab): Fix leaves indentation alone, so Check must not report it
-				if strings.TrimLeft(line[:part.startCol+match[0]], " \t") == "" {
+				// (tested on the two pieces separately: offsets inside part.text are not byte offsets
+				// of the line when the line holds invalid UTF-8)
+				if strings.TrimLeft(line[:part.startCol], " \t") == "" && strings.TrimLeft(part.text[:match[0]], " \t") == "" {
 					continue
 				}
 
